@@ -22,7 +22,8 @@
 //! "declared as non-nullable but contains null values" (no batch is emitted then; label `arrow-refused-null-in-non-nullable`)
 //! — and planning failures incl. panics of the physical planner (discard).
 //!
-//! Known findings: none open (`placeholder-row-declares-aggregate-schema` is FIXED in /repo; its case is a plain regression).
+//! Known finding (open): `placeholder-row-declares-aggregate-schema` (the repair — empty placeholder schema — was committed and
+//! REVERTED in /repo: it turned an Internal error of another query into a panic in ProjectionExec::replace_children).
 //! Observations outside the statement (cases under observations/, not known findings): a SortMergeJoinExec with a filter
 //! FAILS with arrow's "declared as non-nullable but contains null values" when an input column is NOT NULL
 //! (CREATE TABLE t0(id BIGINT NOT NULL, a BIGINT) …; prefer_hash_join=false; t0 r0 LEFT JOIN t0 r1 ON r0.id = r1.a AND r0.a <> r1.id).
@@ -166,8 +167,9 @@ pub fn check(w: &Walk) -> (Facts, Vec<Finding>) {
     for n in &w.nodes {
         if let Err(msg) = check_node(n, &mut f) {
             // known finding: the aggregate-from-statistics rewrite leaves a PlaceholderRowExec declaring the aggregate's schema
-            // (placeholder-row-declares-aggregate-schema is fixed in /repo and no longer recognised)
-            let sig: Option<String> = None;
+            // known finding (open again: its repair was reverted in /repo): the aggregate-from-statistics rewrite leaves a
+            // PlaceholderRowExec declaring the aggregate's schema
+            let sig = (n.name == "PlaceholderRowExec").then(|| "placeholder-row-declares-aggregate-schema".to_string());
             findings.push(Finding { sig, msg });
         }
     }
